@@ -270,6 +270,26 @@ class C13(Property):
             if spec["regime"] not in ("exact", "large"):
                 err = float(np.max(np.abs(H_rep - H_true))) * R0
                 ctx.require(err <= 10 * s * s + 1e-7, f"{'axisym' if axisym else '3d'}:curvature", f"|curvature - true| R0 = {err} > 10 s^2 + 1e-7 = {10 * s * s + 1e-7} (s = {s}, R0 = {R0})")
+            # equivalent ways of passing the same directions: tables of angles (2-d arrays, also Fortran-ordered / transposed
+            # views), Python floats, lists; for the 3-D class the azimuth may be omitted, which the documentation defines as 0
+            n2 = (len(th) // 2) * 2
+            for tag, conv in (("2d-table", lambda a: a[:n2].reshape(2, -1)), ("fortran-table", lambda a: np.asfortranarray(a[:n2].reshape(2, -1))), ("transposed-view", lambda a: a[:n2].reshape(-1, 2).T)):
+                t2, p2 = conv(th), conv(ph)
+                ref_d = conv(rr)
+                ref_H = conv(H_rep)
+                got_d = np.asarray(d.interface_distance(t2) if axisym else d.interface_distance(t2, p2), float)
+                got_H = np.asarray(d.interface_curvature(t2) if axisym else d.interface_curvature(t2, p2), float)
+                okd = got_d.shape == ref_d.shape and bool(np.all(np.abs(got_d - ref_d) <= tol_len))
+                okH = np.broadcast_to(got_H, ref_H.shape).shape == ref_H.shape and bool(np.all(np.abs(np.broadcast_to(got_H, ref_H.shape) - ref_H) <= 1e-12 * (np.abs(ref_H) + 1 / R0)))
+                ctx.require(okd and okH, f"{'axisym' if axisym else '3d'}:angle-representation:{tag}", f"angles passed as a {tag} give another distance / curvature table than the same angles passed one by one")
+            d_scalar = float(d.interface_distance(float(th[0])) if axisym else d.interface_distance(float(th[0]), float(ph[0])))
+            ctx.require(abs(d_scalar - rr[0]) <= tol_len, f"{'axisym' if axisym else '3d'}:scalar-arg", "scalar and array arguments disagree")
+            if not axisym:
+                zero = np.zeros_like(th)
+                for name in ("interface_distance", "interface_curvature"):
+                    f_ = getattr(d, name)
+                    a_, b_ = np.asarray(f_(th), float), np.asarray(f_(th, zero), float)
+                    ctx.require(np.broadcast_to(a_, th.shape).shape == th.shape and bool(np.all(np.abs(np.broadcast_to(a_, th.shape) - np.broadcast_to(b_, th.shape)) <= 1e-12 * (np.abs(np.broadcast_to(b_, th.shape)) + (R0 if name == "interface_distance" else 1 / R0)))), f"3d:{name}:omitted-azimuth", f"{name}(theta) differs from {name}(theta, 0)")
             # volume (Gauss-Legendre x trapezoid) - exact claim and first-order claim for volume_approx
             xg, wg = np.polynomial.legendre.leggauss(48)
             tg = np.arccos(xg)
